@@ -9064,6 +9064,8 @@ class SVG(Group):
 
         # Semiparse the nodes. All nodes are given in iterparse ordering with start-ns, start, and end.
         # Use values are inlined.
+        active = set()  # ids of the references being expanded: a use cannot reach itself.
+
         def semiparse(nodes):
             for elem, children in nodes:
                 if children is None:
@@ -9081,11 +9083,13 @@ class SVG(Group):
                         url = semiattr[XLINK_HREF]
                     if SVG_HREF in semiattr:
                         url = semiattr[SVG_HREF]
-                    if url is not None:
+                    if url is not None and url[1:] not in active:
+                        active.add(url[1:])
                         try:
                             yield from semiparse([event_defs[url[1:]]])
                         except KeyError:
                             pass  # Failed to find link.
+                        active.discard(url[1:])
                 yield tag, "end", elem
 
         yield from semiparse(nodes)
